@@ -169,7 +169,8 @@ class Spec(core.PropSpec):
         rem = rw.choice([0, 0, 1, B - 1, rw.randint(0, B - 1)]) if B > 1 else 0  # samples dropped per epoch under drop_last
         return dict(cls="schedule", rem=rem, nest=rw.choice(["plain", "plain", "compose", "compose2"]), inner=inner, schedule=rw.choice(SCHEDULES), K=rw.choice([0, 1, 2, 2, 3, 4]), B=B, n_batches=n_batches,
                     hook=kind, epochs=epochs, drop_last=rw.random() < 0.5, prefetch=rw.choice([1, 2, 3]), seed=ro.randint(0, 10 ** 6),
-                    sched_seed=ro.getrandbits(32), perm_seed=ro.getrandbits(16))
+                    sched_seed=ro.getrandbits(32), perm_seed=ro.getrandbits(16),
+                    main_pre_access=[ro.randint(0, 3) for _ in range(ro.randint(1, 3))] if ro.random() < 0.25 else [])
 
     def shrink_candidates(self, plan):
         if plan["cls"] == "shared":
@@ -183,6 +184,8 @@ class Spec(core.PropSpec):
             yield from core.generic_candidates(plan, [], [(["K"], 0), (["B"], 1), (["n_batches"], 1), (["prefetch"], 1), (["epochs"], 1), (["rem"], 0)])
             if plan["schedule"] != "default":
                 yield dict(plan, schedule="default")
+            if plan.get("main_pre_access"):
+                yield dict(plan, main_pre_access=[])
 
     def execute(self, plan):
         out = core.Outcome()
@@ -510,6 +513,11 @@ class Spec(core.PropSpec):
             trace = []
 
         try:
+            for i in plan.get("main_pre_access") or []:
+                # the trainer looks at a sample (shape check, visualisation) in the main process before the loader exists: the
+                # schedule is not active there and nothing of it may reach the workers
+                ds[i % N]
+                out.count("fault:main_process_access_before_loader")
             if K == 0:
                 ds.worker_init_fn(0, **hook_kw)  # the documented manual way for num_workers=0
                 loader = Ld(ds, batch_sampler=batches, num_workers=0, collate_fn=identity_collate)
